@@ -251,6 +251,23 @@ class CallMixin:
                 finally:
                     self.frames.pop()
 
+    def call_site_name(self, fi, node):
+        """Name of a call site for precondition obligations: the callee and the ordinal of this call among the
+        calls of that callee in the enclosing function (source order) - stable when the ARGUMENT TEXT changes, so
+        that a changed argument fails the same obligation instead of creating a new one."""
+        f = self.frame
+        names = {fi.name}
+        if fi.name == '__init__' and fi.cls is not None:
+            names = {fi.cls.name}
+
+        def callee_name(c):
+            fn = c.func
+            return fn.attr if isinstance(fn, ast.Attribute) else (fn.id if isinstance(fn, ast.Name) else None)
+        calls = [c for c in ast.walk(f.func.node) if isinstance(c, ast.Call) and callee_name(c) in names]
+        calls.sort(key=lambda c: (c.lineno, c.col_offset))
+        n = next((i + 1 for i, c in enumerate(calls) if c is node), 0)
+        return f'{f.func.key}::pre@{fi.qualname}#call{n}'
+
     def format_safety(self, fmt, nargs, kwnames, node):
         """str.format / _format: the replacement fields of the template must be satisfied by the arguments.
         A literal template is checked field by field (IndexError / KeyError sites proved absent or raised);
@@ -378,7 +395,7 @@ class CallMixin:
         self.contract_calls.add(c.key)
         if c.trusted:
             self.used_assumptions.add(f'assumed-contract:{c.key}')
-        site = self.site(node, 'pre')
+        site = self.call_site_name(fi, node)
         for i, req in enumerate(c.caller_requires):
             self.check_spec(req, f'{site}::{fi.qualname}#caller-req{i+1}', 'pre@call')
         if self.frames and c.requires:
@@ -393,7 +410,10 @@ class CallMixin:
         self.frames.append(fr)
         try:
             for i, req in enumerate(c.requires):
-                self.check_spec(req, f'{site}::{fi.qualname}#req{i+1}', 'pre@call')
+                if isinstance(req, tuple):      # (name, expression)
+                    self.check_spec(req[1], f'{site}::{fi.qualname}#{req[0]}', 'pre@call')
+                else:
+                    self.check_spec(req, f'{site}::{fi.qualname}#req{i+1}', 'pre@call')
             old = (dict(env), dict(self.st.heap))
             outcomes = ([] if c.never_returns else ['normal']) + list(c.raises.keys())
             conds = []
@@ -462,6 +482,14 @@ class CallMixin:
         info = cls.info
         if self.is_subclass_name(name, 'BaseException'):
             return self.make_exc(name, args)
+        init0 = info.find_method('__init__')
+        c0 = self.callee_contract(init0) if init0 is not None else None
+        if c0 is not None and (info.module.name == 'pywbem._cim_xml' or
+                               (self.top_contract is not None and name in self.top_contract.opaque)):
+            # an opaque object whose CONSTRUCTOR is under a callee contract (preconditions on what is handed over)
+            obj = VOpaque(z3.Const(self.fresh_name(name.lower()), RefSort), name)
+            self.apply_contract(c0, init0, [obj] + list(args), kwargs, node)
+            return obj
         r = models.instantiate_repo(self, info, args, kwargs, node)
         if r is not None:
             return r
